@@ -182,6 +182,8 @@ func (t TraceJ) MarshalJSON() ([]byte, error) {
 	return json.Marshal(map[string]interface{}{"c": segsOf(all), "k": k})
 }
 
+const panicCode = 255
+
 type injErr struct{ code int }
 
 func (e *injErr) Error() string { return fmt.Sprintf("injected reader failure %d", e.code) }
@@ -211,6 +213,12 @@ func (s *scriptReader) record(d []byte, st, e int) (int, error) {
 	case stEOF:
 		return len(d), io.EOF
 	case stFail:
+		if e == panicCode {
+			// a reader that panics instead of returning an error; the bytes
+			// of this call are lost with it
+			s.rec[len(s.rec)-1].d = nil
+			panic(&injErr{e})
+		}
 		return len(d), &injErr{e}
 	}
 	return len(d), nil
@@ -361,6 +369,11 @@ func short(s string) string {
 func createObs(o objects.Objects, r io.Reader) (ob Obs) {
 	defer func() {
 		if p := recover(); p != nil {
+			if ie, ok := p.(*injErr); ok {
+				// the reader's own panic came out of Create: observed like its error
+				ob = Obs{T: "errin", E: ie.code, Msg: "panic"}
+				return
+			}
 			ob = Obs{T: "panic", Msg: short(fmt.Sprint(p))}
 		}
 	}()
@@ -781,7 +794,7 @@ func (g *gen) fsFaults(maxLen int) {
 						{Op: "open", Key: k},
 						{Op: "create", plan: splitPlan(r, d, style, off%2)},
 						{Op: "open", Key: k},
-						{Op: "create", plan: failPlan(r, d, off, with, style, 9)},
+						{Op: "create", plan: failPlan(r, d, off, with, style, panicCode)},
 						{Op: "open", Key: k},
 					}
 					g.runFsOps("fs-fault", ops, false)
@@ -974,7 +987,7 @@ func (g *gen) runFree(kind string, readers []*scriptReader, keys []string) {
 	var o objects.Objects
 	var env *fsEnv
 	switch kind {
-	case "fs":
+	case "fs", "fs2":
 		env = newFsEnv(false, g.r)
 		defer env.close()
 		o = env.o
@@ -982,6 +995,14 @@ func (g *gen) runFree(kind string, readers []*scriptReader, keys []string) {
 		o = objects.NewMem()
 	case "mapped":
 		o = objects.NewMapped(objects.NewMemStore())
+	}
+	// fs2: a second store object on the same directory (its own mutex) used by every other goroutine
+	var o2 objects.Objects
+	if kind == "fs2" {
+		var err error
+		if o2, err = objects.NewFS(env.dir); err != nil {
+			panic(err)
+		}
 	}
 	nthr := len(readers)
 	results := make([]Obs, nthr)
@@ -992,6 +1013,10 @@ func (g *gen) runFree(kind string, readers []*scriptReader, keys []string) {
 		go func(t int) {
 			defer wg.Done()
 			<-start
+			if o2 != nil && t%2 == 1 {
+				results[t] = createObs(o2, readers[t])
+				return
+			}
 			results[t] = createObs(o, readers[t])
 		}(t)
 	}
@@ -1161,7 +1186,7 @@ func (g *gen) runMemOps(stream, kind string, ops []Op) {
 	g.emit(c)
 }
 
-func (g *gen) memHistories(n int) {
+func (g *gen) memHistories(n, deep int) {
 	r := g.r
 	// the aliasing corpus first: Get, overwrite the slice, read again
 	for _, via := range []string{"create", "put", "pcreate"} {
@@ -1257,6 +1282,7 @@ func (g *gen) memHistories(n int) {
 				for _, op := range []string{"create", "pcreate"} {
 					ops := []Op{
 						{Op: op, plan: failPlan(r, d, off, with, 1, 1+off)},
+						{Op: op, plan: failPlan(r, d, off, with, 1, panicCode)},
 						{Op: "has", Key: k}, {Op: "popen", Key: k},
 						{Op: op, plan: splitPlan(r, d, 1, off%2)},
 						{Op: "open", Key: k}, {Op: "popen", Key: k},
@@ -1361,7 +1387,7 @@ func (g *gen) runCr(s crSpec) {
 
 func sum(d []byte) []byte { s := sha256.Sum256(d); return s[:] }
 
-func (g *gen) checkReaders(scale int) {
+func (g *gen) checkReaders(scale, deep int) {
 	r := g.r
 	readSizes := [][]int{{1}, {7}, {4096}, {3, 1, 64}, {65536}}
 	declared := func(d []byte) []int64 { return []int64{-1, int64(len(d))} }
@@ -1378,7 +1404,11 @@ func (g *gen) checkReaders(scale int) {
 		}
 	}
 	// every single-byte corruption
-	for _, L := range []int{1, 2, 5, 33} {
+	corruptLens := []int{1, 2, 5, 33}
+	if deep > 1 {
+		corruptLens = append(corruptLens, 64, 200)
+	}
+	for _, L := range corruptLens {
 		d := newStream(r, L)
 		for pos := 0; pos < L; pos++ {
 			for _, mask := range []byte{0x01, 0x80} {
@@ -1399,7 +1429,11 @@ func (g *gen) checkReaders(scale int) {
 		}
 	}
 	// every truncation point and appended bytes
-	for _, L := range []int{1, 2, 5, 33, 64} {
+	cutLens := []int{1, 2, 5, 33, 64}
+	if deep > 1 {
+		cutLens = append(cutLens, 257)
+	}
+	for _, L := range cutLens {
 		d := newStream(r, L)
 		for cut := 0; cut < L; cut++ {
 			for _, n := range declared(d) {
@@ -1506,6 +1540,8 @@ func main() {
 	n := flag.Int("n", 100, "scale of the seeded streams")
 	dir := flag.String("dir", "", "scratch directory for store directories")
 	big := flag.Int("big", 70000, "size of the largest contents")
+	deep := flag.Int("deep", 1, "depth of the enumerations")
+	streams := flag.String("streams", "", "comma separated subset of: mem,fsfault,fsos,fshist,sched,free,cr (default all)")
 	flag.Parse()
 	if *dir == "" {
 		fmt.Fprintln(os.Stderr, "need -dir")
@@ -1518,11 +1554,36 @@ func main() {
 	scratch = *dir
 	g := &gen{r: hx.NewRng(*seed), out: hx.NewOut(os.Stdout), big: *big}
 	// corpus first (known failing inputs), then enumerations, then seeded streams
-	g.memHistories(*n)
-	g.fsFaults(12)
-	g.fsOsFaults(4 + *n/20)
-	g.fsHistories(*n)
-	g.sched(*n / 2)
-	g.free(*n/4, []string{"fs", "fs", "mem", "mapped"})
-	g.checkReaders(*n)
+	on := func(name string) bool {
+		if *streams == "" {
+			return true
+		}
+		for _, s := range strings.Split(*streams, ",") {
+			if s == name {
+				return true
+			}
+		}
+		return false
+	}
+	if on("mem") {
+		g.memHistories(*n, *deep)
+	}
+	if on("fsfault") {
+		g.fsFaults(12 * *deep)
+	}
+	if on("fsos") {
+		g.fsOsFaults(4 + *n/20)
+	}
+	if on("fshist") {
+		g.fsHistories(*n)
+	}
+	if on("sched") {
+		g.sched(*n / 2)
+	}
+	if on("free") {
+		g.free(*n/4, []string{"fs", "fs2", "mem", "mapped", "fs"})
+	}
+	if on("cr") {
+		g.checkReaders(*n, *deep)
+	}
 }
